@@ -44,24 +44,10 @@ def parseZone (ts : List String) : Option Zone :=
 /-! ### the D14 classifier: pure calendar grid + "a transition touches that local midnight" -/
 
 /-- first day of the period containing local day `L` (calendar only, no zone) -/
-def gridStart : Kind → Int → Int
-  | .fixed _, L => L
-  | .day, L => L
-  | .week, L => L - (L + 3) % 7
-  | .month, L => monthStart (monthIdx L)
-  | .quarter, L => monthStart (3 * (monthIdx L / 3))
-  | .half, L => monthStart (6 * (monthIdx L / 6))
-  | .year, L => monthStart (12 * (monthIdx L / 12))
+def gridStart (k : Kind) (L : Int) : Int := (gridOf k).gs L
 
 /-- first day of the period after the one starting on day `P` -/
-def gridNext : Kind → Int → Int
-  | .fixed _, P => P + 1
-  | .day, P => P + 1
-  | .week, P => P + 7
-  | .month, P => monthStart (monthIdx P + 1)
-  | .quarter, P => monthStart (monthIdx P + 3)
-  | .half, P => monthStart (monthIdx P + 6)
-  | .year, P => monthStart (monthIdx P + 12)
+def gridNext (k : Kind) (P : Int) : Int := (gridOf k).gn P
 
 /-- some offset change skips or repeats a local interval [lo, hi) containing the local midnight of day `D`
 (`closed`: hi included — only relevant for the week period's `AddDate` intermediate). -/
@@ -88,8 +74,13 @@ def d14Why (k : Kind) (z : Zone) (t : Int) : String :=
     else if k == .week && (touch z true P || touch z true (P + 1)) then s!"week-intermediate {P}"
     else ""
 
-/-- is (kind, zone, instant) an instance of D14? -/
-def d14P (k : Kind) (z : Zone) (t : Int) : Bool := d14Why k z t != ""
+/-- is (kind, zone, instant) an instance of D14?  A transition touches a local midnight the computation uses, and
+the executable hypothesis of theorem `C12_at` is indeed false there (where `checkAt` holds the model provably
+satisfies the pointwise laws, so a failure could only be a model/code disagreement, never D14). -/
+def d14P (k : Kind) (z : Zone) (t : Int) : Bool := d14Why k z t != "" && !checkAt k z t
+
+/-- cross-instant laws (monotone / same-period) are not covered by the pointwise theorem: touch only -/
+def d14X (k : Kind) (z : Zone) (t : Int) : Bool := d14Why k z t != ""
 
 /-- D14 for a stream: some period start day from the period of `from` to the period after `to` is touched -/
 def d14S (k : Kind) (z : Zone) (from_ to : Int) : Bool :=
@@ -157,9 +148,10 @@ def handleP (k : Kind) (z : Zone) (ts : List Int) (obs : String) : String × Boo
       if !ascending then (modelStr, false, "instants of the case are not ascending") else
       match crossLaws pairs with
       | some (law, t, t') =>
-        if d14P k z t || d14P k z t' then (modelStr, false, s!"KF:D14 law {law} fails between t={t} and t'={t'} (a zone transition touches the local midnight of {d14Why k z t}{d14Why k z t'})")
+        if d14X k z t || d14X k z t' then (modelStr, false, s!"KF:D14 law {law} fails between t={t} and t'={t'} (a zone transition touches the local midnight of {d14Why k z t}{d14Why k z t'})")
         else (modelStr, false, s!"law {law} fails between t={t} and t'={t'} (no transition touches the periods' local midnights)")
-      | none => (modelStr, true, "")
+      | none => (modelStr, true,
+          s!"checkAt {(ts.filter (checkAt k z)).length}/{ts.length} untouched-but-unchecked {(ts.filter (fun t => !checkAt k z t && d14Why k z t == "")).length}")
 
 /-! ### S lines -/
 
